@@ -228,3 +228,22 @@ Print Assumptions C10_dual1_no_overlap.
 Theorem C10_dual1_centre : same_set dual1_centre_dofs (all_dofs_of BCentre) = true.
 Proof. exact (eq_refl : dual1_centre_status = true). Qed.
 Print Assumptions C10_dual1_centre.
+
+(* (kept last: the modules below open their own ring notations) *)
+From BV Require Import AssemblyA.Sums AssemblyA.Mat AssemblyA.Dense AssemblyA.Sparse AssemblyA.L2Proofs Bary.MixedMass.
+(* ---- mixed mass matrices, composition: in the model of core/sparse_assembler.py (BV.AssemblyA.Sparse, tied by C04/C13)
+   the assembled matrix  X_test' . M_bary . X_trial  is, entry by entry, the quadrature over the common barycentric
+   grid of the product of the two represented functions (barycentric coefficients = columns of the two
+   dof_transformations), over any commutative ring.  With C10_*_pointwise (the represented functions ARE the coarse
+   / dual functions) and C10_mixed_mass_exact_partial (the rule is exact for these integrands) this is the exact
+   integral of the product of the two bases; those three statements are not merged into a single formula because they
+   live over different carriers (abstract ring / Q / R). *)
+Theorem C10_mixed_mass_composition :
+  forall (A : Type) (R : CRing A) dim rule intel (bt br : basisfn) nel (St Sr : space A) gt gr (Xt Xr : mat) r c,
+    dofs_in (seq 0 gt) St (sparse_elements nel St Sr) -> dofs_in (seq 0 gr) Sr (sparse_elements nel St Sr) ->
+    req (sparse_op nel (Lsp_identity dim rule intel bt br) St Sr gt gr (Some Xt) (Some Xr) r c)
+        (sumf (fun e => sumf (fun d => sumf (fun q =>
+            rmul (rmul (uval (fun i => Xt i r) St bt e (fst q) d) (uval (fun j => Xr j c) Sr br e (fst q) d))
+                 (rmul (snd q) (intel e))) rule) (seq 0 dim)) (sparse_elements nel St Sr)).
+Proof. exact @mixed_mass_entry. Qed.
+Print Assumptions C10_mixed_mass_composition.
